@@ -49,7 +49,7 @@ def cases(tier, seed):
     for m, n in ((3, 3), (4, 3), (3, 4)):
         for mask in G.COMPONENT_MASKS:
             for fn, arg in (("rand_qsvd", 1), ("pass_eff_qsvd", 2)):
-                out.append({"key": f"mask/{fn}/{m}x{n}/{G.mask_name(mask)}", "fn": fn, "m": m, "n": n, "r": 3, "R": 2, "P": 1, "arg": arg, "mask": mask, "S": 2})
+                out.append({"key": f"mask/{fn}/{m}x{n}/{G.mask_name(mask)}", "fn": fn, "m": m, "n": n, "r": 3, "R": 3, "P": 1, "arg": arg, "mask": mask, "S": 2})
     # whole-matrix scalings (thresholds inside the algorithms must be relative)
     for m, n in ((3, 3), (4, 3), (3, 4)):
         for e in (-50, 40):
